@@ -693,45 +693,21 @@ class AbstractExcelInPython(ABC):
         if start_num and (start_num > len(within_text) or start_num <= 0):
             return '#VALUE!'
 
-        pattern = r'([^~][?*]|^[?*])'
-        if len(re.findall(pattern, find_text)) == 0:
-            find_text = find_text.replace('~?', '?') \
-                .replace('~*', '*')
-
-            result = within_text.find(find_text, start_num - 1) + 1
-            return result if result else '#VALUE!'
-
-        find_text = find_text \
-            .replace('?', '(.)') \
-            .replace('*', '(.*)') \
-            .replace('~(.*)', r'\*') \
-            .replace('~(.)', r'\?')
-
-        result = re.finditer(find_text, within_text, re.I)
-
-        if result is None:
-            return '#VALUE!'
-
-        find_elem = None
-        for i in result:
-            if i.span(0)[0] + 1 < start_num:
+        # ? stands for one character, * for any run of characters, ~? ~* ~~ for the character itself;
+        # every other character of find_text (regex specials included) stands for itself; case does not matter
+        pattern, index = '', 0
+        while index < len(find_text):
+            char = find_text[index]
+            if char == '~' and index + 1 < len(find_text) and find_text[index + 1] in '?*~':
+                pattern += re.escape(find_text[index + 1])
+                index += 2
                 continue
-            find_elem = i
-            break
-        # исключаем поиск по regex вроде \d
-        if find_elem:
-            sequences = find_elem.groups(0)
-            found_text = find_elem.group(0)
-            find_text = find_text.replace('(.*)', '(.)') \
-                .replace(r'\?', '?') \
-                .replace(r'\.', '.')
-            for sequence in sequences:
-                find_text = find_text.replace('(.)', sequence, 1)
+            pattern += '.' if char == '?' else '.*' if char == '*' else re.escape(char)
+            index += 1
 
-            if found_text.lower() != find_text.lower():
-                return '#VALUE!'
+        found = re.compile(pattern, re.IGNORECASE | re.DOTALL).search(within_text, start_num - 1)
 
-        return find_elem.span(0)[0] + 1 if find_elem else '#VALUE!'
+        return found.start() + 1 if found else '#VALUE!'
 
     def _network_days(self, date_start: datetime.datetime, date_end: datetime.datetime,
                       holidays: List[List[datetime.datetime]] | None = None):
